@@ -486,3 +486,38 @@ def _read_reentrant(event):
 
 for _e in ('success', 'failure'):
     _read_reentrant(_e)
+
+
+@contract('C06', 'deck.write-completion', [DM + ':DeckMemory.write', DM + ':DeckMemoryManager._write', DM + ':DeckMemoryManager._write_done',
+                                          DM + ':DeckMemoryManager._write_failed'],
+          clause='every deck-memory write completes with exactly one success or failure notification (when a callback was given) and no pending '
+                 'record is left behind: the next write is served whether or not the previous one failed and whether or not a failure callback '
+                 'was supplied')
+def deck_write_completion(c):
+    memh = c.ext('memh', returns={'read': True, 'write': True})
+    mgr = c.new(DM + ':DeckMemoryManager', 7, 0x19, 0x10000, memh)
+    c.int('base', 0x10000000, 2 ** 31), c.int('address', 0, 0x0FFFFFFF)
+    dm = c.new(DM + ':DeckMemory', mgr, 0x1100)
+    c.set(dm, '_base_address', c.get('base'))
+    c.set(dm, '_bit_field1', 1 | 2 | 4 | 8)
+    c.let('mgr', mgr), c.let('dm', dm)
+    outcome = c.choice('outcome', ['done', 'failed'])
+    with_failed_cb = c.choice('failure_callback_given', [True, False])
+    ok, bad = c.ext('write_ok'), c.ext('write_failed')
+    wdata = c.bytes('wdata', 4)
+    if with_failed_cb:
+        c.call((dm, 'write'), c.get('address'), wdata, ok, bad)
+    else:
+        c.call((dm, 'write'), c.get('address'), wdata, ok)
+    c.require('raised is None')
+    c.reset_trace()
+    if outcome == 'done':
+        c.call((mgr, '_write_done'), mgr, c.snapshot('mapped', 'base + address'))
+        c.ensure('success-notified-once', "raised is None and calls() == ('write_ok',)")
+    else:
+        c.call((mgr, '_write_failed'), mgr, c.snapshot('mapped', 'base + address'))
+        c.let('with_cb', with_failed_cb)
+        c.ensure('failure-notified-once-when-a-callback-was-given', "calls() == (('write_failed',) if with_cb else ())")
+    c.reset_trace()
+    c.call((dm, 'write'), c.get('address'), wdata, ok, bad)
+    c.ensure('next-write-served', "raised is None and len(sent('memh.write')) == 1")
